@@ -37,6 +37,9 @@ type c02Params struct {
 	Refused bool
 	// Unclean: the glob is spelled non-canonically (1: "//", 2: "/./", 3: "x/../")
 	Unclean int
+	// Servers > 1: the session names that many servers (each an in-process server with its own host name); the
+	// output is labelled (non-plain) so that every line can be attributed to its server
+	Servers int
 }
 
 func (p c02Params) String() string {
@@ -46,6 +49,9 @@ func (p c02Params) String() string {
 	}
 	if p.Unclean > 0 {
 		s += fmt.Sprintf(" unclean-glob-spelling=%d", p.Unclean)
+	}
+	if p.Servers > 1 {
+		s += fmt.Sprintf(" servers=%d", p.Servers)
 	}
 	return s
 }
@@ -99,7 +105,17 @@ func c02Body(p c02Params, paths []string, dir string) (string, string) {
 		args.RegexStr = "M"
 		args.LContext = lcontext.LContext{MaxCount: p.Max, AfterContext: p.After}
 	}
-	o := ClientOpts{Kind: p.Kind, Args: args, Mutate: func() {
+	if p.Servers > 1 {
+		var names []string
+		for i := 0; i < p.Servers; i++ {
+			names = append(names, fmt.Sprintf("srv%d", i))
+		}
+		args.ServersStr = strings.Join(names, ",")
+		args.Plain = false
+		args.NoColor = true
+		args.Quiet = true
+	}
+	o := ClientOpts{Kind: p.Kind, Args: args, ForceServerless: p.Servers > 1, Mutate: func() {
 		config.Server.MaxConcurrentCats = p.CatLimit
 		if p.Refused {
 			config.Server.Permissions.Default = []string{"^/.*", "!denied"}
@@ -132,6 +148,41 @@ func c02Body(p c02Params, paths []string, dir string) (string, string) {
 	}
 	// oracle: per file, exactly its selected lines, once, in order
 	got := map[int][]string{}
+	if p.Servers > 1 {
+		// labelled output: every server must deliver every file completely, once and in order
+		perHost := map[string]map[int][]string{}
+		for _, l := range strings.Split(r.Stdout, "\n") {
+			f := strings.SplitN(l, "|", 6)
+			if len(f) != 6 || f[0] != "REMOTE" {
+				continue
+			}
+			var fi, n int
+			if _, err := fmt.Sscanf(f[5], "f%dl%dM", &fi, &n); err != nil {
+				return "garbage", fmt.Sprintf("unexpected output line %q", l)
+			}
+			if perHost[f[1]] == nil {
+				perHost[f[1]] = map[int][]string{}
+			}
+			perHost[f[1]][fi] = append(perHost[f[1]][fi], f[5])
+		}
+		var missing []string
+		for i := 0; i < p.Servers; i++ {
+			h := fmt.Sprintf("srv%d", i)
+			for f, n := range p.Files {
+				want := c02FileLines(f, n)
+				if strings.Join(perHost[h][f], "\n") != strings.Join(want, "\n") {
+					missing = append(missing, fmt.Sprintf("server %s file %d: got %d of %d lines %v", h, f, len(perHost[h][f]), len(want), perHost[h][f]))
+				}
+			}
+		}
+		if len(missing) > 0 {
+			return fmt.Sprintf("status=%d", r.Status), "lines lost or duplicated: " + strings.Join(missing, "; ")
+		}
+		if r.Status != 0 {
+			return fmt.Sprintf("status=%d", r.Status), fmt.Sprintf("all lines delivered but exit status %d", r.Status)
+		}
+		return fmt.Sprintf("status=%d servers=%d", r.Status, p.Servers), ""
+	}
 	for _, l := range strings.Split(r.Stdout, "\n") {
 		if l == "" {
 			continue
@@ -332,6 +383,8 @@ func c02ParamSets(tier string) (ps []c02Params, d int) {
 			{Kind: "cat", Files: []int{3000}, CatLimit: 2, Stall: 4 * time.Second, StallAt: 150, D: -1},
 			{Kind: "grep", Files: []int{1500, 700}, Glob: true, CatLimit: 1, Max: 1200, After: 2, Stall: 2 * time.Second, StallAt: 50, D: -1},
 			{Kind: "cat", Files: []int{1, 1, 1}, Glob: true, CatLimit: 1, D: 1},
+			{Kind: "cat", Files: []int{2}, CatLimit: 2, Servers: 2, D: 1},
+			{Kind: "grep", Files: []int{1, 1}, Glob: true, CatLimit: 1, Max: 1, Servers: 3, D: 1},
 			{Kind: "cat", Files: []int{2, 1}, Glob: true, CatLimit: 2, Unclean: 1, D: 1},
 			{Kind: "grep", Files: []int{2}, Glob: true, CatLimit: 2, Unclean: 2, D: 1},
 			{Kind: "cat", Files: []int{1, 2}, Glob: true, CatLimit: 1, Unclean: 3, D: 1},
@@ -370,7 +423,7 @@ func init() {
 		ID:    "C02",
 		Level: "model_checking",
 		Rule: "stateless exploration of all schedules within a deviation bound (quick 1, thorough 2; deviations = preemption, non-first ready select case, demotion of a goroutine) of one complete dcat/dgrep session: " +
-			"the real client main body, serverless connector, server handler, read commands, readers and client handler; sessions of 1-3 files (and one of 5 files: more than twice the limit queue) with 0-2 lines (plus 100/101 lines around the queue capacity and, on the canonical schedule, files of 700-3000 lines with a stalling consumer), one command per file or one glob (also spelled with '//', '/./', 'x/../'), " +
+			"the real client main body, serverless connector, server handler, read commands, readers and client handler; sessions (with one server, and with 2-3 servers in labelled output) of 1-3 files (and one of 5 files: more than twice the limit queue) with 0-2 lines (plus 100/101 lines around the queue capacity and, on the canonical schedule, files of 700-3000 lines with a stalling consumer), one command per file or one glob (also spelled with '//', '/./', 'x/../'), " +
 			"cat limit 1-2, grep with max/after, globs that also match a directory, a dangling link and a file the permission rules deny, consumer eager or stalled 50 ms..6 s before the k-th write; oracle: per file exactly its selected lines once and in order, exit status 0, termination before the horizon; " +
 			"plus a 4-file session whose command stream is delivered in segments of 1..32768 bytes through a re-used transport buffer (as an SSH channel does); distinct = distinct (scenario, stdout+status) outcomes",
 		Assumptions: []string{
